@@ -789,9 +789,14 @@ class SweepMachine:
         bond = k + ONE if left else k
         b = pmatch(f'{obj}.qD[__k]', targets[2])
         tl = x.idx(targets[2].slice, 'qD') if b is not None else None
-        self.rep.add('pairing', s, tl is not None and tl == bond,
-                     f'`{f}`: label of the re-factorised bond {bond} is stored as {obj}.qD[{bond}] in the same assignment '
-                     f'(got `{norm(targets[2])}`)')
+        if b is None and isinstance(targets[2], ast.Name) and targets[2].id != '_':
+            # the label goes through a local first: the store `psi.qD[..] = <expr over that local>` is checked against the
+            # bond recorded here (rule 'pairing' at the store)
+            x.temps[targets[2].id] = ('label', bond)
+        else:
+            self.rep.add('pairing', s, tl is not None and tl == bond,
+                         f'`{f}`: label of the re-factorised bond {bond} is stored as {obj}.qD[{bond}] in the same assignment '
+                         f'(got `{norm(targets[2])}`)')
         st = self.write_site(s, k, 'left' if left else 'right', st)
         if not dummy:
             st = self.write_site(s, want_nb, 'centre', st)
